@@ -31,9 +31,17 @@ where
     /// Tries to optimize a given path using modified Lin-Kernighan-Helsgaun algorithm.
     /// Returns discovered solutions in the order of their improvement.
     pub fn optimize(mut self, path: Path) -> Vec<Path> {
+        // NOTE: the gain of a move is a running sum which is subject to rounding errors: it can be positive for
+        // a tour of the same cost (e.g. when two nodes with equal costs to their neighbours are swapped), and so is
+        // the gain of the inverse move. Remember the accepted tours to stop instead of cycling between them endlessly.
+        let mut accepted = BTreeSet::from([path.clone()]);
         self.solutions.push(path);
 
         while let Some(improved_path) = self.solutions.last().and_then(|p| self.improve(p.iter().copied())) {
+            if !accepted.insert(improved_path.clone()) {
+                break;
+            }
+
             self.solutions.clear();
             self.solutions.push(improved_path);
         }
